@@ -87,6 +87,55 @@ func runC04(r *Run) {
 			r.check(hit == nil, "addPrefixToRoute:"+n+":on-every-path", r.fpos(pre), "every return of addPrefixToRoute is preceded by the store",
 				"addPrefixToRoute can hand the route back without recomputing "+n+": for a mount on \"/\" the clone keeps the pattern, parser and parameter names as derived under the sub-app's CaseSensitive / StrictRouting, while requests are prepared under the parent's: "+pathString(r.P, path))
 		}
+		// flags that register derives by comparing the normalised pattern with a literal (root: "/", star: "/*") are
+		// derived the same way from the prefixed pattern — a constant forgets the case in which the mount leaves the
+		// pattern as it was (a mount on "/")
+		flagExempt := map[string]string{
+			"Route.star": "a shortcut only: the pattern `/*` is parsed to a wildcard segment that captures the same text, Route.match answers the same with and without the flag",
+		}
+		nflags := 0
+		for _, fr := range fieldRefs(reg) {
+			if !fr.Write || !strings.HasPrefix(fr.Name, "Route.") || fr.Val == nil {
+				continue
+			}
+			cmp, ok := stripValue(fr.Val).(*ssa.BinOp)
+			if !ok || cmp.Op != token.EQL {
+				continue
+			}
+			lit, isLit := constString(asConst(cmp.Y))
+			if !isLit || !dependsOnParam(cmp.X, "pathRaw") {
+				continue
+			}
+			nflags++
+			if why, ok := flagExempt[fr.Name]; ok {
+				r.ok("addPrefixToRoute:"+fr.Name+":flag-exempt", r.pos(fr.Instr), "exempt: "+why)
+				continue
+			}
+			okFlag := false
+			for _, pr := range fieldRefs(pre) {
+				if !pr.Write || pr.Name != fr.Name || pr.Val == nil {
+					continue
+				}
+				okFlag = dependsOn(pr.Val, func(v ssa.Value) bool {
+					bo, ok := v.(*ssa.BinOp)
+					if !ok || (bo.Op != token.EQL && bo.Op != token.NEQ) {
+						return false
+					}
+					for _, pair := range [][2]ssa.Value{{bo.X, bo.Y}, {bo.Y, bo.X}} {
+						if l, ok := constString(asConst(pair[1])); ok && l == lit {
+							return dependsOn(pair[0], func(x ssa.Value) bool {
+								c, ok := x.(*ssa.Call)
+								return ok && strings.HasSuffix(calleeName(&c.Call), "getGroupPath")
+							}) != nil
+						}
+					}
+					return false
+				}) != nil
+			}
+			r.check(okFlag, "addPrefixToRoute:"+fr.Name+":derived-from-the-prefixed-pattern", r.fpos(pre), fmt.Sprintf("the flag is the comparison of the prefixed, normalised pattern with %q, as at registration", lit),
+				fmt.Sprintf("%s is derived from the pattern at registration (== %q, %s) but set to a constant at mount: a sub-app's root-level Use mounted on \"/\" loses `matches everything` — GET // (empty detection path) skips a middleware that the same Use registered directly, or through Group(\"/\"), runs", fr.Name, lit, r.pos(fr.Instr)))
+		}
+		r.atLeast("pattern-comparison flags in register", nflags, 2)
 		for _, n := range sortedKeys(derived) {
 			r.check(wr[n], "addPrefixToRoute:"+n, r.fpos(pre), "recomputed for the prefixed path",
 				n+" depends on the route path at registration ("+derived[n]+") but addPrefixToRoute does not recompute it for the prefixed path: under app.Use(\"/:tenant\", sub) the sub-app's routes keep their own parameter names while the matcher fills values for the prefixed pattern (Params(\"id\") returns the tenant; /plain answers 404)")
